@@ -35,6 +35,11 @@ func (a *Addressing) ExtractMailbox(address string) (string, error) {
 	if local == "" {
 		return "", errors.New("mailbox name cannot be empty")
 	}
+	if local[len(local)-1] == '.' {
+		// "user.+ext@host": without the extension the local part would end with a period, which no
+		// address may, so the mailbox could never be asked for by its own name.
+		return "", errors.New("mailbox name cannot end with a period")
+	}
 
 	if a.Config.MailboxNaming == config.LocalNaming {
 		return local, nil
